@@ -50,8 +50,14 @@ func genC08(seed uint64, run int, tier string) Scenario {
 		// never collected reply (message-ids travel a long way from the stale one)
 		n = between(r, 70, 150)
 	}
+	// one base in ten is followed by its cut enumeration: no call of it waits out its timeout
+	// (each sub-run would spin the reply poller through it)
+	cutBase := !long && pickCutEnum(run, 10)
 	for i := 0; i < n; i++ {
 		mode := pick(r, "now", "now", "now", "late", "never")
+		if cutBase {
+			mode = "now"
+		}
 		if long {
 			mode = "now"
 			if i < 3 && r.IntN(2) == 0 || i == 0 {
@@ -79,6 +85,7 @@ func genC08(seed uint64, run int, tier string) Scenario {
 	}
 	sc.Ops = append(sc.Ops, NCOp{Kind: "close"})
 	sc.Class = "pairing/" + ver
+	sc.CutEnum = cutBase
 	if sc.Server.Echo {
 		sc.Class += "/echo"
 	}
@@ -96,6 +103,7 @@ func runC08(env *Env, s Scenario) {
 	}
 	out := env.K.Run(done, sc.Deadline(), sc.readDelay()*20+time.Millisecond)
 	env.Finish(out)
+	sc.noteCutBase(env, nr, nr.OpenRec.Delivered)
 	env.Context = nr.Summary
 	env.Res.Shape = fmt.Sprintf("%s n=%d seg=%s lat=%s rd=%d", sc.Class, len(sc.Server.Replies), sc.Net.SegMode, sc.Net.LatMode, sc.ReadDelayUS)
 	env.Res.Nontrivial = true
@@ -206,6 +214,7 @@ func init() {
 		Gen:    genC08,
 		New:    func() Scenario { return &NCSession{} },
 		Run:    runC08,
+		Expand: expandNCCuts(80),
 		Shrink: shrinkNC,
 	})
 }
